@@ -135,13 +135,79 @@ def fp_value(a):
     return (a.dtype.str, a.shape, np.ascontiguousarray(a).tobytes())
 
 
+PAYLOAD_MARK = "__c12_payload__"
+
+
+class Payload:
+    """User-class payload of an object field (never a tuple / list: NumPy would unpack those)."""
+
+    def __init__(self, pid):
+        self.pid = pid
+
+    def __eq__(self, o):
+        return isinstance(o, Payload) and o.pid == self.pid
+
+    def __hash__(self):
+        return hash(self.pid)
+
+    def __repr__(self):
+        return f"Payload({self.pid})"
+
+
+def make_payload(kind, pid):
+    """Payloads of several Python types; every one carries its id so that a stored entry can be traced back
+    to what was submitted (dicts and lists are marked, so that the monitor treats them as opaque values)."""
+    if kind == "obj":
+        return Payload(pid)
+    if kind == "dict":
+        return {PAYLOAD_MARK: pid, "v": [pid, "x"]}
+    if kind == "list":
+        return [PAYLOAD_MARK, pid, pid + 1]
+    return f"p{pid}"
+
+
+def _marked_list(o):
+    return isinstance(o, list) and len(o) > 0 and isinstance(o[0], str) and o[0] == PAYLOAD_MARK
+
+
+def is_payload(o):
+    return isinstance(o, Payload) or (isinstance(o, dict) and PAYLOAD_MARK in o) or _marked_list(o)
+
+
+def payload_id(o):
+    if isinstance(o, Payload):
+        return o.pid
+    if isinstance(o, dict) and PAYLOAD_MARK in o:
+        return o[PAYLOAD_MARK]
+    if _marked_list(o) and len(o) > 1:
+        return o[1]
+    if isinstance(o, str) and o[:1] == "p" and o[1:].isdigit():
+        return int(o[1:])
+    return None
+
+
 def _fp_obj(x):
-    """Element of an object array: value for plain data, type name for anything else (no addresses)."""
+    """Typed fingerprint of a Python object (element of an object array, payload): the TYPE is part of it, so a
+    list that comes back as an ndarray, or a dict wrapped into a 0-d array, is a difference. No addresses."""
     if x is None or isinstance(x, (str, int, float, bool, np.generic)):
-        return repr(x)
+        return (type(x).__name__, repr(x))
+    if isinstance(x, Payload):
+        return ("Payload", x.pid)
     if isinstance(x, np.ndarray):
-        return fp_value(x)
+        return ("ndarray",) + fp_value(x)
+    if isinstance(x, dict):
+        return ("dict", sorted((repr(k), _fp_obj(v)) for k, v in x.items()))
+    if isinstance(x, (list, tuple)):
+        return (type(x).__name__, [_fp_obj(v) for v in x])
     return f"<{type(x).__name__}>"
+
+
+def fp_any(v):
+    """Fingerprint of one entry as a read path presents it: arrays by dtype / shape / contents, anything else by
+    Python type and value."""
+    if isinstance(v, np.ndarray):
+        return ("A",) + fp_value(v)
+    return ("P", _fp_obj(v))
 
 
 def make_array_arg(name, values, layout, exact_dtype, other_dtype, rng):
@@ -306,8 +372,8 @@ def internal_arrays(roots, limit=20000, skip=()):
             break
         if o is None or isinstance(o, (str, bytes, int, float, bool, complex, np.generic, type)):
             continue
-        if id(o) in seen:
-            continue
+        if id(o) in seen or is_payload(o):
+            continue  # payloads of object fields are the user's opaque values, not part of the callee
         seen.add(id(o))
         if isinstance(o, np.ndarray):
             out.append((path, o))
@@ -391,7 +457,7 @@ def output_arrays(x, path="ret", depth=0):
     DataFrames are writable containers whatever the flag of the arrays they expose.
     """
     out = []
-    if depth > 6 or x is None:
+    if depth > 6 or x is None or is_payload(x):
         return out
     if isinstance(x, np.ndarray):
         out.append((path, x, bool(x.flags.writeable)))
@@ -421,8 +487,9 @@ def output_arrays(x, path="ret", depth=0):
 
 
 def trash_output(x, depth=0):
-    """Overwrite everything writable inside a returned object (arrays in place, dict values replaced)."""
-    if depth > 6 or x is None:
+    """Overwrite everything writable inside a returned object (arrays in place, dict values replaced).
+    Payload objects of object fields are left alone: they are the user's values, stored by reference."""
+    if depth > 6 or x is None or is_payload(x):
         return
     if isinstance(x, np.ndarray):
         trash_array(x)
@@ -480,6 +547,12 @@ def make_archive(kind, dt, case):
     from ribs.archives import CVTArchive, GridArchive, ProximityArchive, SlidingBoundariesArchive
     sd, md, xd = case_dims(case)
     extra = {"ex": ((xd,), dt)}
+    obj = case.get("obj")
+    if obj in ("fields", "both"):
+        # object fields with NON-scalar entries (a writable view when indexed) and with scalar entries
+        extra.update({"tags": ((2,), object), "meta": ((), object)})
+    if obj in ("objsol", "both"):
+        dt = {"solution": object, "objective": dt, "measures": dt}  # the documented dict form of `dtype`
     ranges = [(-1.0, 1.0)] * md
     seed = 11
     if kind in ("grid", "grid_mae"):
@@ -539,6 +612,12 @@ class World:
         self.other = OTHER[self.dtname]
         self.kind = case.get("arch")
         self.dims = case_dims(case)
+        self.obj = case.get("obj")
+        self.has_tags = self.obj in ("fields", "both")
+        self.objsol = self.obj in ("objsol", "both")
+        self.registry = {}  # payload id -> typed fingerprint of the payload as submitted
+        self.probe = []  # results of unmonitored probe calls (emitter.ask() ...), part of the observables
+        self.store2 = None  # a store built by ArrayStore.from_raw_dict
         self.archive = make_archive(self.kind, self.dt, case) if self.kind else None
         self.store = None
         self.opt = None
@@ -546,8 +625,11 @@ class World:
         self.sched = None
         if case.get("store"):
             from ribs.archives import ArrayStore
-            self.store = ArrayStore({"objective": ((), self.dt), "measures": ((self.dims[1],), self.dt),
-                                     "solution": ((self.dims[0],), self.dt)}, 8)
+            desc = {"objective": ((), self.dt), "measures": ((self.dims[1],), self.dt),
+                    "solution": ((self.dims[0],), object if self.objsol else self.dt)}
+            if self.has_tags:
+                desc.update({"tags": ((2,), object), "meta": ((), object)})
+            self.store = ArrayStore(desc, 8)
         if case.get("opt"):
             from ribs.emitters.opt import AdamOpt, GradientAscentOpt
             theta0 = np.array([0.5, -0.25, 1.0], dtype=self.dt)
@@ -570,6 +652,8 @@ class World:
             out.append(("archive", self.archive))
         if self.store is not None:
             out.append(("store", self.store))
+        if self.store2 is not None:
+            out.append(("store2", self.store2))
         if self.opt is not None:
             out.append(("opt", self.opt))
         for k, e in enumerate(self.emitters):
@@ -585,12 +669,16 @@ class World:
             o["archive"] = obs_archive(self.archive)
         if self.store is not None:
             o["store"] = obs_store(self.store)
-        roots = [r for r in self.roots() if r[0] not in ("archive", "store")]
+        if self.store2 is not None:
+            o["store2"] = obs_store(self.store2)
+        if self.probe:
+            o["probe"] = list(self.probe)
+        roots = [r for r in self.roots() if r[0] not in ("archive", "store", "store2")]
         if roots:
             g = []
             # the archive / store is observed through its public read paths (unoccupied storage rows are
             # uninitialised memory), everything else through the arrays it holds
-            skip = [x for x in (self.archive, self.store) if x is not None]
+            skip = [x for x in (self.archive, self.store, self.store2) if x is not None]
             for path, a in internal_arrays(roots, skip=skip)[0]:
                 g.append((path, fp_value(a)))
             o["graph"] = g
@@ -609,10 +697,26 @@ def obs_archive(a):
     o["stats"] = (int(st.num_elites), _hexf(st.coverage), _hexf(st.qd_score), _hexf(st.norm_qd_score),
                   _hexf(st.obj_max), _hexf(st.obj_mean))
     be = a.best_elite
-    o["best"] = None if be is None else sorted((str(k), fp_value(v)) for k, v in be.items())
-    if hasattr(a, "boundaries") and type(a).__name__ == "SlidingBoundariesArchive":
+    o["best"] = None if be is None else sorted((str(k), fp_any(v)) for k, v in be.items())
+    cls = type(a).__name__
+    if cls == "SlidingBoundariesArchive":
         o["boundaries"] = [fp_value(b) for b in a.boundaries]
         o["buffer"] = int(a._buffer.size)  # pylint: disable=protected-access
+    # geometry and routing: what a constructor argument kept by reference would change
+    geo = {}
+    for name in ("lower_bounds", "upper_bounds", "centroids", "samples", "dims"):
+        if cls == "ProximityArchive" and name in ("lower_bounds", "upper_bounds"):
+            continue  # cached properties of the contents (they raise while the archive is empty)
+        v = getattr(a, name, None)
+        if isinstance(v, np.ndarray):
+            geo[name] = fp_value(v)
+    if cls == "GridArchive":
+        geo["boundaries"] = [fp_value(b) for b in a.boundaries]
+    if cls != "ProximityArchive":
+        md = a.measure_dim
+        probe = (np.arange(5 * md).reshape(5, md) % 7 - 3) / 4.0
+        geo["route"] = fp_value(a.index_of(probe))
+    o["geometry"] = geo
     return o
 
 
@@ -691,6 +795,38 @@ def archive_cls(w):
     return type(w.archive).__name__
 
 
+PAYLOAD_KINDS = ("obj", "dict", "list", "str")
+
+
+def obj_values(w, op, n, allow_list=True):
+    """Values of the object-typed arguments of a batch of n rows: `tags` (n, 2) with non-scalar entries
+    [Payload, str], `meta` (n,) holding payloads of several Python types (a list payload can only travel
+    inside an object ndarray through a batch add), and -- for an object solution dtype -- `solution`
+    (n, solution_dim) of pairwise distinct strings. Every payload is registered under its id."""
+    base = (op["seed"] % 100000) * 16
+    tags = np.empty((n, 2), dtype=object)
+    meta = np.empty(n, dtype=object)
+    sol = np.empty((n, w.dims[0]), dtype=object)
+    for i in range(n):
+        pid = base + i
+        kind = PAYLOAD_KINDS[(op["seed"] + i) % 4]
+        if kind == "list" and not allow_list:
+            kind = "dict"
+        meta[i] = make_payload(kind, pid)
+        tags[i, 0] = Payload(pid)
+        tags[i, 1] = f"t{pid}"
+        for j in range(w.dims[0]):
+            sol[i, j] = f"s{pid}_{j}"
+        w.registry[pid] = _fp_obj(meta[i])
+    return tags, meta, sol
+
+
+def list_ok(w, op, name):
+    """May a list payload be used for `name` in this call? Not through python-list arguments (NumPy would
+    unpack it), not through the SlidingBoundariesArchive (its batch add goes through add_single)."""
+    return w.kind != "sba" and lay_of(op, name) != "list"
+
+
 def calls_add(w, op):
     sol, obj, meas, ex = gen_rows(op["seed"], op["n"], w.dims)
     a = [mk(w, op, "solution", sol, 1), mk(w, op, "objective", obj, 2), mk(w, op, "measures", meas, 3),
@@ -702,8 +838,17 @@ def calls_add(w, op):
         lean, bits = "ProximityArchive.add", abits + [("f", w.kind == "prox_lc"), ("b",), ("b",)]
     else:
         lean, bits = "ArchiveBase.add", abits + [("f", w.kind == "grid_mae"), ("b",)]
+    kw = {}
+    if w.obj:
+        tags, meta, osol = obj_values(w, op, op["n"], allow_list=list_ok(w, op, "meta"))
+        if w.objsol:
+            a[0] = mk(w, op, "solution", osol, 1, exact=object, other=np.dtype("<U24"))
+        if w.has_tags:
+            a += [mk(w, op, "tags", tags, 9, exact=object, other=object),
+                  mk(w, op, "meta", meta, 10, exact=object, other=object)]
+            kw = {"tags": a[4].obj, "meta": a[5].obj}
     yield Call(f"{archive_cls(w)}.add", lean, bits, a,
-               lambda: w.archive.add(a[0].obj, a[1].obj, a[2].obj, ex=a[3].obj))
+               lambda: w.archive.add(a[0].obj, a[1].obj, a[2].obj, ex=a[3].obj, **kw))
 
 
 def calls_add_single(w, op):
@@ -717,8 +862,16 @@ def calls_add_single(w, op):
         lean, bits = "ProximityArchive.add", [("f", True)] * 4 + [("f", w.kind == "prox_lc"), ("b",), ("b",)]
     else:
         lean, bits = "ArchiveBase.add_single", [("a", "solution", False), ("a", "measures", True), ("b",)]
+    kw = {}
+    if w.obj:
+        tags, meta, osol = obj_values(w, op, 1, allow_list=False)
+        if w.objsol:
+            a[0] = mk(w, op, "solution", osol[0], 1, exact=object, other=np.dtype("<U24"))
+        if w.has_tags:
+            a.append(mk(w, op, "tags", tags[0], 9, exact=object, other=object))
+            kw = {"tags": a[3].obj, "meta": meta[0]}
     yield Call(f"{archive_cls(w)}.add_single", lean, bits, a,
-               lambda: w.archive.add_single(a[0].obj, float(obj[0]), a[1].obj, ex=a[2].obj))
+               lambda: w.archive.add_single(a[0].obj, float(obj[0]), a[1].obj, ex=a[2].obj, **kw))
 
 
 def calls_retrieve(w, op):
@@ -785,9 +938,18 @@ def calls_store_add(w, op):
     a = [mk(w, op, "indices", idx, 7, exact=np.int32, other=np.int64), mk(w, op, "objective", obj, 2),
          mk(w, op, "measures", meas, 3), mk(w, op, "solution", sol, 1)]
     bits = [("a", "indices", True), ("a", "measures", False), ("a", "objective", False), ("b",)]
-    yield Call("ArrayStore.add", "ArrayStore.add", bits, a,
-               lambda: w.store.add(a[0].obj, {"objective": a[1].obj, "measures": a[2].obj, "solution": a[3].obj},
-                                   {}, []))
+    data = {"objective": a[1].obj, "measures": a[2].obj, "solution": a[3].obj}
+    if w.obj:
+        tags, meta, osol = obj_values(w, op, op["n"], allow_list=lay_of(op, "meta") != "list")
+        if w.objsol:
+            a[3] = mk(w, op, "solution", osol, 1, exact=object, other=np.dtype("<U24"))
+            data["solution"] = a[3].obj
+        if w.has_tags:
+            a += [mk(w, op, "tags", tags, 9, exact=object, other=object),
+                  mk(w, op, "meta", meta, 10, exact=object, other=object)]
+            data.update({"tags": a[4].obj, "meta": a[5].obj})
+    target = w.store2 if op.get("target") == "store2" else w.store
+    yield Call("ArrayStore.add", "ArrayStore.add", bits, a, lambda: target.add(a[0].obj, data, {}, []))
 
 
 def calls_store_retrieve(w, op):
@@ -1183,6 +1345,8 @@ def check_outputs(call, res, ints, conts, where, label):
     stack = [(label, res)]
     while stack:
         p, o = stack.pop()
+        if is_payload(o):
+            continue
         if isinstance(o, (dict, list)) and id(o) in conts:
             return Failure("oracle", f"{where} {call.name}: returned {p} IS the internal object {conts[id(o)]} "
                            "(not a copy)")
@@ -1216,6 +1380,16 @@ def clean_call(w, call):
 
 # --------------------------------------------------------------------------
 # read-path agreement (runtime)
+
+
+def entry_mismatch(dt, got, ref):
+    """Does `got` (an entry as some read path presents it) differ from `ref` = data()[field][i]? Numeric
+    fields: dtype, shape, bits. Object fields: Python TYPE and value (a list is not an ndarray, a dict is
+    not a 0-d array holding a dict)."""
+    if dt == object:
+        return fp_any(got) != fp_any(ref)
+    v = np.asarray(got)
+    return v.dtype != dt or v.shape != np.shape(ref) or fp_value(v) != fp_value(ref)
 
 
 def check_readpaths(w, where):
@@ -1284,10 +1458,9 @@ def check_readpaths(w, where):
             if sorted(e.keys()) != sorted(fields):
                 return bad(f"iterelites entry {i} has fields {sorted(e.keys())}")
             for k in fields:
-                v = np.asarray(e[k])
-                if v.dtype != dts[k] or v.shape != d[k][i].shape or fp_value(v) != fp_value(d[k][i]):
-                    return bad(f"iterelites entry {i} field {k!r} = {v.tolist()} differs from "
-                               f"data()[{k!r}][{i}] = {np.asarray(d[k][i]).tolist()}")
+                if entry_mismatch(dts[k], e[k], d[k][i]):
+                    return bad(f"iterelites entry {i} field {k!r} = {e[k]!r} ({type(e[k]).__name__}) differs "
+                               f"from data()[{k!r}][{i}] = {d[k][i]!r} ({type(d[k][i]).__name__})")
     it = list(src)
     if len(it) != n:
         return bad(f"iteration yields {len(it)} entries, len() = {n}")
@@ -1295,10 +1468,67 @@ def check_readpaths(w, where):
         if sorted(e.keys()) != sorted(fields):
             return bad(f"iteration entry {i} has fields {sorted(e.keys())}")
         for k in fields:
-            v = np.asarray(e[k])
-            if v.dtype != dts[k] or fp_value(v) != fp_value(d[k][i]):
-                return bad(f"iteration entry {i} field {k!r} = {e[k]!r} differs from data()[{k!r}][{i}] "
-                           f"(dtype {v.dtype}, declared {np.dtype(dts[k])})")
+            if entry_mismatch(dts[k], e[k], d[k][i]):
+                return bad(f"iteration entry {i} field {k!r} = {e[k]!r} ({type(e[k]).__name__}) differs from "
+                           f"data()[{k!r}][{i}] = {d[k][i]!r} ({type(d[k][i]).__name__}; declared dtype "
+                           f"{np.dtype(dts[k])})")
+    # payload integrity: every stored object entry is, by type and value, what was submitted, and all object
+    # fields of one row come from one and the same submitted candidate
+    if w.has_tags:
+        for i in range(n):
+            x = d["meta"][i]
+            pid = payload_id(x)
+            if pid is None or w.registry.get(pid) != _fp_obj(x):
+                return bad(f"stored meta[{i}] = {x!r} ({type(x).__name__}) is not a submitted payload "
+                           f"(submitted: {w.registry.get(pid)})")
+            t0, t1 = d["tags"][i]
+            if not isinstance(t0, Payload) or t0.pid != pid or t1 != f"t{pid}" or type(t1) is not str:
+                return bad(f"stored tags[{i}] = {d['tags'][i]!r} does not belong to the candidate of meta[{i}] "
+                           f"(payload id {pid})")
+    if w.objsol:
+        for i in range(n):
+            row = d["solution"][i]
+            if any(type(x) is not str for x in row) or \
+                    [x.split("_")[-1] for x in row] != [str(j) for j in range(len(row))] or \
+                    len({x.rsplit("_", 1)[0] for x in row}) != 1:
+                return bad(f"stored object solution {row!r} is not a submitted solution")
+    if w.archive is None:
+        return None
+    index_row = {int(ix): i for i, ix in enumerate(d["index"])}
+
+    def same_row(label, got, i_got, j):
+        for k in fields:
+            g = got[k] if i_got is None else got[k][i_got]
+            if entry_mismatch(dts[k], g, d[k][j]):
+                return bad(f"{label} field {k!r} = {g!r} ({type(g).__name__}) differs from data()[{k!r}][{j}] = "
+                           f"{d[k][j]!r} ({type(d[k][j]).__name__})")
+        return None
+
+    # best_elite: when the cached best elite is still stored, it is presented like its row of data()
+    be = src.best_elite
+    if be is not None and sorted(be.keys()) != sorted(fields):
+        return bad(f"best_elite has fields {sorted(be.keys())}")
+    if be is not None:
+        for j in range(n):
+            if all(not entry_mismatch(dts[k], be[k], d[k][j]) for k in ("solution", "objective", "measures")):
+                for k in fields:
+                    if k not in ("threshold", "index") and entry_mismatch(dts[k], be[k], d[k][j]):
+                        return bad(f"best_elite field {k!r} = {be[k]!r} ({type(be[k]).__name__}) differs from "
+                                   f"data()[{k!r}][{j}] = {d[k][j]!r} ({type(d[k][j]).__name__})")
+                break
+    if n:
+        # retrieve / retrieve_single / sample_elites present stored rows like data() does
+        occ, r = src.retrieve(d["measures"])
+        for i in range(n):
+            if occ[i] and int(r["index"][i]) in index_row:
+                f = same_row(f"retrieve(...)[{i}]", r, i, index_row[int(r["index"][i])])
+                if f is not None:
+                    return f
+        o1, r1 = src.retrieve_single(d["measures"][0])
+        if o1 and int(r1["index"]) in index_row:
+            f = same_row("retrieve_single(...)", r1, None, index_row[int(r1["index"])])
+            if f is not None:
+                return f
     return None
 
 
